@@ -86,7 +86,8 @@ Record Inv (items : list (list V)) (ys : list (nat * V)) (st : mstate) : Prop :=
   I_tags : tags_ok (length items) ys;
   I_loc : forall s, In s (m_srcs st) -> okloc (m_phase st) (snd s) /\ wf s;
   I_cov : covered (m_srcs st) (m_order st);
-  I_wait : m_phase st = MWait -> existsb in_tasks (m_srcs st) = true
+  I_wait : m_phase st = MWait -> existsb in_tasks (m_srcs st) = true;
+  I_yield : m_phase st = MYield -> exists s, In s (m_srcs st) /\ snd s = LYielded
 }.
 
 Definition vy (v : vis) : list (nat * V) := match v with VYield i x => [(i, x)] | _ => [] end.
@@ -160,10 +161,20 @@ Proof.
       subst ri.
       destruct (IH (upd ss i ([], LDropped)) ss' order' v ys H) as (A & B & Cc & D & E).
       * eapply acct_upd_same; eauto.
-      * intros s Hs. apply In_upd in Hs. destruct Hs as [->|Hs]; [split; simpl; auto | auto].
-      * intros s Hs. apply In_upd in Hs. destruct Hs as [->|Hs]; [simpl; discriminate | auto].
+      * intros s Hs. apply In_upd in Hs. destruct Hs as [->|Hs]; [split; [exact I | reflexivity] | apply Hok; auto].
+      * intros s Hs. apply In_upd in Hs. destruct Hs as [->|Hs]; [simpl; discriminate | apply Hny; auto].
       * split; [auto|]. split; [auto|]. split; [auto|]. split; [auto|].
         intros j x Hv. rewrite <- (length_upd ss i ([], LDropped)). eauto.
+Qed.
+
+Lemma process_yielded order : forall ss ss' order' i x,
+  process ss order = (ss', order', VYield i x) -> exists s, In s ss' /\ snd s = LYielded.
+Proof.
+  induction order as [|a order IH]; simpl; intros; [discriminate|].
+  destruct (nth_error ss a) as [[ri li]|] eqn:En; [|eauto].
+  destruct li; eauto. destruct r; eauto.
+  inversion H; subst. exists (ri, LYielded). split; auto.
+  eapply nth_error_In. eapply nth_error_upd_eq; eauto.
 Qed.
 
 Lemma in_tasks_false_dropped ss :
@@ -198,6 +209,7 @@ Proof.
     + apply tags_ok_app; auto. intros j y [Hy|[]]. inversion Hy; subst.
       destruct Ha as [<- _]. eapply E; eauto.
     + discriminate.
+    + intros _. eapply process_yielded; eauto.
   - congruence.
   - assert (Hnb : forall s r, In s ss' -> snd s <> LBatch r).
     { intros s r Hs Hl. apply In_nth_error in Hs. destruct Hs as [j Hj].
@@ -212,14 +224,17 @@ Proof.
     assert (Hwait : forall s, In s ss' -> okloc MWait (snd s)).
     { intros s Hs. destruct (B _ Hs) as [Ho _]. pose proof (Cc eq_refl _ Hs). pose proof (Hnb s).
       destruct (snd s) eqn:El; simpl in *; try tauto. exfalso; eapply H1; eauto. }
+    simpl in A; rewrite app_nil_r in A.
     destruct (existsb in_tasks ss') eqn:Ee; inversion H; subst; clear H; simpl; rewrite app_nil_r.
     + constructor; simpl; auto.
-      * intros s Hs. split; [auto | apply B; auto].
+      * intros s Hs. split; [apply Hwait; auto | apply B; auto].
       * intros j s r Hj Hl. exfalso. eapply Hnb; eauto using nth_error_In.
+      * discriminate.
     + constructor; simpl; auto.
       * intros s Hs. split; [|apply B; auto].
         eapply in_tasks_false_dropped; eauto. intros; apply B; auto.
       * intros j s r Hj Hl. exfalso. eapply Hnb; eauto using nth_error_In.
+      * discriminate.
       * discriminate.
 Qed.
 
@@ -237,7 +252,7 @@ Qed.
 Lemma step_inv items ys st l st' o :
   Inv items ys st -> mstep st l = (st', o) -> Inv items (ys ++ vy (snd o)) st'.
 Proof.
-  intros [Ha Ht Hl Hc Hw] H. destruct l as [|i|ord]; simpl in H.
+  intros [Ha Ht Hl Hc Hw Hy] H. destruct l as [|i|ord]; simpl in H.
   - (* MNext *)
     destruct (m_phase st) eqn:Ep.
     + (* MFresh *)
@@ -245,18 +260,20 @@ Proof.
       { intros s Hs. apply in_map_iff in Hs. destruct Hs as (s0 & <- & _). reflexivity. }
       assert (Ha' : acct items ys (map arm (m_srcs st))).
       { apply acct_map; auto. intros s Hs. destruct (Hl _ Hs) as [Ho _].
-        destruct s as [r lc]; simpl in *. destruct lc; simpl in Ho; try tauto. reflexivity. }
+        destruct s as [r lc]; simpl in *. destruct lc; simpl in Ho; try tauto; reflexivity. }
       destruct (existsb in_tasks (map arm (m_srcs st))) eqn:Ee; inversion H; subst; clear H; simpl; rewrite app_nil_r.
       * constructor; simpl; auto.
         -- intros s Hs. rewrite (Hall _ Hs). split; simpl; auto. unfold wf. rewrite (Hall _ Hs). exact I.
         -- intros j s r Hj Hlr. rewrite (Hall s) in Hlr by eauto using nth_error_In. discriminate.
+        -- discriminate.
       * assert (m_srcs st = []).
         { destruct (m_srcs st) as [|s r]; auto. simpl in Ee. discriminate. }
         rewrite H in *. constructor; simpl; auto.
         -- intros s [].
         -- intros j s r Hj. destruct j; discriminate.
         -- discriminate.
-    + (* MWait *) inversion H; subst; simpl. rewrite app_nil_r. constructor; auto.
+        -- discriminate.
+    + (* MWait *) inversion H; subst; simpl. rewrite app_nil_r. constructor; rewrite ?Ep; auto.
     + (* MYield *)
       destruct (settle (map rearm (m_srcs st)) (m_order st)) as [st1 v] eqn:Es.
       inversion H; subst; clear H. simpl.
@@ -270,7 +287,7 @@ Proof.
       * intros j s r Hj Hlr. apply nth_error_map_some in Hj. destruct Hj as (s0 & Hs0 & ->).
         apply (Hc j s0 r Hs0). destruct s0 as [r0 lc]; unfold rearm in Hlr; simpl in *.
         destruct lc; simpl in Hlr; try discriminate; auto.
-    + (* MFin *) inversion H; subst; simpl. rewrite app_nil_r. constructor; auto.
+    + (* MFin *) inversion H; subst; simpl. rewrite app_nil_r. constructor; rewrite ?Ep; auto.
   - (* MComplete *)
     destruct (nth_error (m_srcs st) i) as [s|] eqn:En; inversion H; subst; clear H; simpl; rewrite app_nil_r;
       [|constructor; auto].
@@ -291,10 +308,16 @@ Proof.
       * exists (complete s). split; [eapply nth_error_In; eapply nth_error_upd_eq; eauto|].
         rewrite En in Hj. inversion Hj; subst. destruct s0 as [[|v r0] lc]; destruct lc; simpl in *; auto.
       * exists s0. split; auto. eapply nth_error_In. rewrite nth_error_upd_neq; eauto.
+    + intros Hp. destruct (Hy Hp) as (s0 & Hs0 & Hl0). apply In_nth_error in Hs0. destruct Hs0 as [j Hj].
+      destruct (Nat.eq_dec i j) as [->|Hne].
+      * rewrite En in Hj. inversion Hj; subst. exists (complete s0). split.
+        -- eapply nth_error_In. eapply nth_error_upd_eq; eauto.
+        -- destruct s0 as [[|v r0] lc]; simpl in *; subst; reflexivity.
+      * exists s0. split; auto. eapply nth_error_In. rewrite nth_error_upd_neq; eauto.
   - (* MWake *)
-    destruct (m_phase st) eqn:Ep; try (inversion H; subst; simpl; rewrite app_nil_r; constructor; auto).
+    destruct (m_phase st) eqn:Ep; try solve [inversion H; subst; simpl; rewrite app_nil_r; constructor; rewrite ?Ep; auto].
     destruct (done_idx 0 (m_srcs st)) as [|d ds] eqn:Ed.
-    + inversion H; subst; simpl; rewrite app_nil_r; constructor; auto.
+    + inversion H; subst; simpl; rewrite app_nil_r; constructor; rewrite ?Ep; auto.
     + destruct (settle (map to_batch (m_srcs st)) (ord ++ seq 0 (length (m_srcs st)))) as [st1 v] eqn:Es.
       inversion H; subst; clear H. simpl.
       eapply settle_inv; eauto.
@@ -314,10 +337,11 @@ Lemma init_inv items : Inv items [] (minit items).
 Proof.
   constructor; simpl.
   - split; [apply map_length|]. intros i s Hs. apply nth_error_map_some in Hs.
-    destruct Hs as (l & Hl & ->). simpl. symmetry. apply nth_error_nth. auto.
+    destruct Hs as (l & Hl & ->). simpl. apply nth_error_nth. auto.
   - intros i v [].
   - intros s Hs. apply in_map_iff in Hs. destruct Hs as (l & <- & _). simpl. split; exact I.
   - intros j s r Hj Hl. apply nth_error_map_some in Hj. destruct Hj as (l & _ & ->). discriminate.
+  - discriminate.
   - discriminate.
 Qed.
 
@@ -417,7 +441,7 @@ Proof.
             * eapply nth_error_In. eapply nth_error_upd_eq; eauto.
             * destruct s0 as [[|v r0] lc]; simpl in *; subst; reflexivity.
           + exists s0. split; auto. eapply nth_error_In. rewrite nth_error_upd_neq; eauto.
-        - destruct (m_phase st) eqn:Ep; try (inversion E1; subst; auto; fail).
+        - destruct (m_phase st) eqn:Ep; try solve [inversion E1; subst; first [congruence | auto]].
           destruct (done_idx 0 (m_srcs st)); [inversion E1; subst; congruence|].
           destruct (settle (map to_batch (m_srcs st)) (ord ++ seq 0 (length (m_srcs st)))) as [sx v] eqn:Es.
           inversion E1; subst. eauto. }
@@ -437,4 +461,174 @@ Proof.
   - destruct (merge_projection items ls i) as [_ [rest Hr]].
     apply nth_error_None in En. rewrite Hlen in En. rewrite nth_overflow in Hr |- * by auto.
     destruct (proj i (yields (mouts items ls))); auto; discriminate.
+Qed.
+
+(** ---- liveness: from every reachable state some schedule finishes the merge ---- *)
+
+Definition cw (l : loc) : nat :=
+  match l with
+  | LIdle => 5 | LPend => 4 | LDone (RItem _) => 7 | LDone RStop => 3
+  | LBatch (RItem _) => 6 | LBatch RStop => 2 | LYielded => 5 | LDropped => 0
+  end.
+Definition w (s : srcst) : nat := 4 * length (fst s) + cw (snd s).
+Definition sumw (ss : list srcst) : nat := fold_right (fun s a => w s + a) 0 ss.
+Definition mu (st : mstate) : nat :=
+  sumw (m_srcs st) + match m_phase st with MFresh => 1 | _ => 0 end.
+
+Lemma sumw_map_le f ss : (forall s, w (f s) <= w s) -> sumw (map f ss) <= sumw ss.
+Proof. intros Hf. induction ss; simpl; auto. specialize (Hf a). lia. Qed.
+
+Lemma sumw_map_lt f ss :
+  (forall s, w (f s) <= w s) -> (exists s, In s ss /\ w (f s) < w s) -> sumw (map f ss) < sumw ss.
+Proof.
+  intros Hf (s & Hs & Hlt). induction ss; simpl in *; [contradiction|].
+  destruct Hs as [->|Hs].
+  - pose proof (sumw_map_le f ss Hf). lia.
+  - specialize (IHss Hs). specialize (Hf a). lia.
+Qed.
+
+Lemma sumw_upd ss : forall i s s', nth_error ss i = Some s -> sumw (upd ss i s') + w s = sumw ss + w s'.
+Proof.
+  induction ss; intros [|i] s s' H; simpl in *; try discriminate.
+  - inversion H; subst. lia.
+  - specialize (IHss _ _ s' H). lia.
+Qed.
+
+Lemma process_le order : forall ss ss' o' v, process ss order = (ss', o', v) -> sumw ss' <= sumw ss.
+Proof.
+  induction order as [|i rest IH]; simpl; intros ss ss' o' v H.
+  - inversion H; subst; auto.
+  - destruct (nth_error ss i) as [[ri li]|] eqn:En; [|eauto].
+    destruct li; eauto. destruct r.
+    + inversion H; subst. pose proof (sumw_upd _ _ _ (ri, LYielded) En). unfold w in *; simpl in *. lia.
+    + apply IH in H. pose proof (sumw_upd _ _ _ (ri, LDropped) En). unfold w in *; simpl in *. lia.
+Qed.
+
+Lemma settle_le ss order st' v : settle ss order = (st', v) -> mu st' <= sumw ss.
+Proof.
+  unfold settle. destruct (process ss order) as [[ss' o'] v0] eqn:Ep. apply process_le in Ep.
+  intros H. destruct v0; [|destruct (existsb in_tasks ss')..]; inversion H; subst; unfold mu; simpl; lia.
+Qed.
+
+Lemma done_idx_nil ss : forall n, done_idx n ss = [] -> forall s, In s ss -> is_done s = false.
+Proof.
+  induction ss; simpl; intros n H s Hs; [contradiction|].
+  destruct (is_done a) eqn:Ed; [discriminate|]. destruct Hs as [->|Hs]; eauto.
+Qed.
+
+Lemma done_idx_some ss : forall n, done_idx n ss <> [] -> exists s, In s ss /\ is_done s = true.
+Proof.
+  induction ss; simpl; intros n H; [congruence|].
+  destruct (is_done a) eqn:Ed; [eauto|]. destruct (IHss _ H) as (s & Hs & Hd). eauto.
+Qed.
+
+Lemma progress items ys st :
+  Inv items ys st -> m_phase st <> MFin -> exists l, mu (fst (mstep st l)) < mu st.
+Proof.
+  intros [Ha Ht Hl Hc Hw Hy] Hnf. destruct (m_phase st) eqn:Ep; try congruence.
+  - (* MFresh *) exists MNext. simpl. rewrite Ep.
+    assert (Hle : forall s, In s (m_srcs st) -> snd s = LIdle).
+    { intros s Hs. destruct (Hl _ Hs) as [Ho _]. destruct (snd s); simpl in Ho; tauto. }
+    assert (sumw (map arm (m_srcs st)) <= sumw (m_srcs st)).
+    { clear - Hle. induction (m_srcs st) as [|a l IH]; simpl; auto.
+      assert (snd a = LIdle) by (apply Hle; left; auto).
+      assert (sumw (map arm l) <= sumw l) by (apply IH; intros; apply Hle; right; auto).
+      destruct a as [r lc]; simpl in *; subst. unfold w; simpl. lia. }
+    destruct (existsb in_tasks (map arm (m_srcs st))); unfold mu; simpl; rewrite Ep; lia.
+  - (* MWait *)
+    destruct (done_idx 0 (m_srcs st)) as [|d ds] eqn:Ed.
+    + pose proof (done_idx_nil _ _ Ed) as Hnd.
+      specialize (Hw eq_refl). apply existsb_exists in Hw. destruct Hw as (s & Hs & Hin).
+      apply In_nth_error in Hs. destruct Hs as [i Hi].
+      exists (MComplete i). simpl. rewrite Hi. unfold mu; simpl. rewrite Ep.
+      pose proof (sumw_upd _ _ _ (complete s) Hi).
+      assert (w (complete s) < w s).
+      { pose proof (Hnd _ (nth_error_In _ _ Hi)). destruct s as [[|v r] lc]; unfold in_tasks, is_done in *; simpl in *;
+          destruct lc; try discriminate; unfold w; simpl; lia. }
+      lia.
+    + exists (MWake []). simpl. rewrite Ep, Ed.
+      destruct (settle (map to_batch (m_srcs st)) (seq 0 (length (m_srcs st)))) as [st1 v] eqn:Es.
+      simpl. apply settle_le in Es.
+      assert (sumw (map to_batch (m_srcs st)) < sumw (m_srcs st)).
+      { apply sumw_map_lt.
+        - intros [r lc]. unfold w, to_batch; simpl. destruct lc as [| |[|]|[|]| |]; simpl; lia.
+        - destruct (done_idx_some (m_srcs st) 0) as (s & Hs & Hd); [congruence|].
+          exists s. split; auto. destruct s as [r lc]; unfold is_done, w, to_batch in *; simpl in *.
+          destruct lc as [| |[|]|[|]| |]; try discriminate; simpl; lia. }
+      unfold mu at 2. rewrite Ep. lia.
+  - (* MYield *) exists MNext. simpl. rewrite Ep.
+    destruct (settle (map rearm (m_srcs st)) (m_order st)) as [st1 v] eqn:Es.
+    simpl. apply settle_le in Es.
+    assert (sumw (map rearm (m_srcs st)) < sumw (m_srcs st)).
+    { apply sumw_map_lt.
+      - intros [r lc]. unfold w, rearm; simpl. destruct lc as [| |[|]|[|]| |]; simpl; lia.
+      - destruct (Hy eq_refl) as (s & Hs & Hly). exists s. split; auto.
+        destruct s as [r lc]; simpl in *; subst. unfold w, rearm; simpl. lia. }
+    unfold mu at 2. rewrite Ep. lia.
+Qed.
+
+Lemma mrun_from_cons st l r :
+  fst (mrun_from st (l :: r)) = fst (mrun_from (fst (mstep st l)) r).
+Proof. simpl. destruct (mstep st l) as [st1 o]. simpl. destruct (mrun_from st1 r). reflexivity. Qed.
+
+Lemma mrun_from_app ls : forall st ls',
+  fst (mrun_from st (ls ++ ls')) = fst (mrun_from (fst (mrun_from st ls)) ls').
+Proof.
+  induction ls as [|l r IH]; intros; [reflexivity|].
+  rewrite <- app_comm_cons, !mrun_from_cons. apply IH.
+Qed.
+
+Lemma can_finish_from items : forall n st ys,
+  Inv items ys st -> mu st < n -> exists ls', m_phase (fst (mrun_from st ls')) = MFin.
+Proof.
+  induction n; intros st ys HI Hn; [lia|].
+  destruct (m_phase st) eqn:Ep; try (exists []; exact Ep);
+    (destruct (progress _ _ _ HI) as [l Hl]; [congruence|];
+     destruct (mstep st l) as [st1 o] eqn:E1;
+     pose proof (step_inv _ _ _ _ _ _ HI E1) as HI1; simpl in Hl;
+     destruct (IHn st1 _ HI1) as [ls' Hls]; [lia|];
+     exists (l :: ls'); rewrite mrun_from_cons, E1; exact Hls).
+Qed.
+
+(** For every run there is a continuation (release the remaining gates, keep
+    consuming) after which the merged iterator has finished: it cannot get stuck. *)
+Theorem merge_can_finish items ls : exists ls', m_phase (mrun items (ls ++ ls')) = MFin.
+Proof.
+  destruct (can_finish_from items (S (mu (mrun items ls))) _ _ (run_inv items ls)) as [ls' H]; [lia|].
+  exists ls'. unfold mrun in *. rewrite mrun_from_app. exact H.
+Qed.
+
+(** finished is absorbing and silent: nothing is yielded afterwards *)
+Theorem merge_finished_stays items ls ls' :
+  m_phase (mrun items ls) = MFin ->
+  m_phase (mrun items (ls ++ ls')) = MFin /\ yields (mouts items (ls ++ ls')) = yields (mouts items ls).
+Proof.
+  intros Hp.
+  assert (G : forall ls' st, m_phase st = MFin ->
+              m_phase (fst (mrun_from st ls')) = MFin /\ yields (snd (mrun_from st ls')) = []).
+  { clear. induction ls' as [|l r IH]; simpl; intros st Hp; auto.
+    destruct (mstep st l) as [st1 o] eqn:E1.
+    assert (m_phase st1 = MFin /\ vy (snd o) = []).
+    { destruct l; simpl in E1.
+      - rewrite Hp in E1. inversion E1; subst; auto.
+      - destruct (nth_error (m_srcs st) i); inversion E1; subst; auto.
+      - rewrite Hp in E1. inversion E1; subst; auto. }
+    destruct H as [Hp1 Hv]. destruct (IH _ Hp1) as [A B].
+    destruct (mrun_from st1 r) as [st2 os] eqn:E2. simpl in *. split; auto.
+    unfold yields in *. simpl. rewrite B. unfold vy in Hv. destruct (snd o); try discriminate; reflexivity. }
+  unfold mrun, mouts in *.
+  assert (Hs : forall ls st ls', snd (mrun_from st (ls ++ ls')) = snd (mrun_from st ls) ++ snd (mrun_from (fst (mrun_from st ls)) ls')).
+  { clear. induction ls as [|l r IH]; simpl; intros; auto.
+    destruct (mstep st l) as [st1 o]. specialize (IH st1 ls').
+    destruct (mrun_from st1 (r ++ ls')) as [a b]. destruct (mrun_from st1 r) as [c d]. simpl in *. rewrite IH. reflexivity. }
+  rewrite mrun_from_app, Hs, yields_app. destruct (G ls' _ Hp) as [A B]. rewrite B, app_nil_r. auto.
+Qed.
+
+Theorem merge_terminates items ls :
+  (m_phase (mrun items ls) = MFin <->
+   (m_phase (mrun items ls) <> MFresh /\ forall s, In s (m_srcs (mrun items ls)) -> s = ([], LDropped))) /\
+  (m_phase (mrun items ls) = MFin -> forall i, proj i (yields (mouts items ls)) = nth i items []).
+Proof.
+  split; [exact (merge_finished_iff items ls)|].
+  intros H i. exact (merge_complete_when_finished items ls i H).
 Qed.
